@@ -3,7 +3,9 @@
    SelectServer loop).  Shared: the executor's incoming callback list (SelectServer::Execute pushes
    under m_incoming_mutex, the loop swaps the whole list out and runs it in order), and, for the
    Synchronize in progress, its mutex, condition variable and flag (they live on Synchronize's
-   stack: `alive` says whether that frame still exists).  A schedule is a list of choices: let M
+   stack: `alive` says whether that frame still exists).  A save is not one step: the saver makes
+   one system call of the save script per step, so every interleaving of further SavePreferences /
+   Synchronize calls of M with a save in progress is a schedule.  A schedule is a list of choices: let M
    take its next atomic step, let S take its next atomic step, or wake M spuriously out of
    pthread_cond_wait.  A step that is not enabled (blocked on the mutex, blocked in wait, nothing
    to do) leaves the state unchanged.  `fixed = true` is Synchronize / CompleteSynchronization
@@ -22,6 +24,9 @@ Inductive mpc_t :=
 | MDoneSeen.   (* left the loop, holding the mutex; next: Unlock and return *)
 Inductive spc_t :=
 | SRun         (* SelectServer loop: swap the incoming list / run the next closure *)
+| SSaving (m : pmap) (rest : list sys)
+               (* inside SavePreferencesToFile for the closure's copy m; rest = system calls still to
+                  make.  M can run between any two of them (e.g. issue further SavePreferences). *)
 | SMLocked     (* CompleteSynchronization: mutex->Lock() done *)
 | SMSet        (* fixed: *complete = true done; old: mutex->Unlock() done.  next: Signal *)
 | SMSignalled. (* fixed only: Signal done, next: Unlock *)
@@ -94,11 +99,8 @@ Definition saver_step (fixed : bool) (s : sst) : sst :=
   | SRun =>
     match batch s with
     | [] => set_batch (queue s) (set_queue [] s)       (* callbacks_to_run.swap(m_incoming_callbacks) *)
-    | ISave m :: r =>                                  (* SavePreferencesToFile *)
-      match fs_run fs_step (save_script m) (sdisk s) with
-      | Some d => set_batch r (set_sdisk d (set_completed (completed s ++ [m]) s))
-      | None => set_hazard true s
-      end
+    | ISave m :: r =>                                  (* the closure is taken off the list and started *)
+      set_batch r (set_spc (SSaving m (save_script m)) s)
     | IMarker :: r =>                                  (* CompleteSynchronization: mutex->Lock() *)
       if alive s then
         match mtx s with
@@ -106,6 +108,15 @@ Definition saver_step (fixed : bool) (s : sst) : sst :=
         | Some _ => s
         end
       else set_hazard true s
+    end
+  | SSaving m rest =>                                  (* SavePreferencesToFile, one system call per step *)
+    match rest with
+    | [] => set_spc SRun (set_completed (completed s ++ [m]) s)      (* returned: this save is complete *)
+    | c :: rest' =>
+      match fs_step (sdisk s) c with
+      | Some d => set_spc (SSaving m rest') (set_sdisk d s)
+      | None => set_hazard true s
+      end
     end
   | SMLocked =>
     if alive s then
